@@ -317,6 +317,20 @@ def run_shard(ctx, spec):
                             raise Violation(f"IV {iv.hex()} published twice ({seen[iv]}, size {size} {how})", "pairwise distinct IVs", bucket="iv-repeat")
                         seen[iv] = (size, how)
                         ivfile.write(iv)
+                # the same key in two places: the keys directory is copied after the key has been used (a second build machine, a restored
+                # cache, a backup) and both copies go on encrypting - whatever lies beside the key file travels with it
+                kd2 = os.path.join(d, "keys-copy")
+                shutil.copytree(kd, kd2)
+                s2 = Session(kd2)
+                for i in range(60):
+                    for which, sess in (("original", s_), ("copy", s2)):
+                        iv = sess.encrypt(b"identical firmware" if i % 3 else pbytes(i, i), f"keys directory {which}[{i}]")
+                        acc.case(nt_key=("copied-keys", which, i), classes=["copied-keys-directory"])
+                        if iv in seen:
+                            raise Violation(f"IV {iv.hex()} published twice with the same key: by {seen[iv]} and by the {which} of a copied keys directory (invocation {i})",
+                                            "pairwise distinct IVs", bucket="iv-repeat-copied-keys")
+                        seen[iv] = (which, i)
+                        ivfile.write(iv)
                 shutil.rmtree(d, ignore_errors=True)
             else:
                 d = ctx.tmpdir("cli")
@@ -375,7 +389,7 @@ def replay(ctx, check, case):
 
 def finalize(ctx, m, ev):
     c = m["counters"]
-    for need in ("storm:reused-object", "storm:fresh-object", "storm:reimport", "machine", "cli-process", "fork:inherited-object", "fork:reimport", "sizes", "size>=1MiB:True"):
+    for need in ("storm:reused-object", "storm:fresh-object", "storm:reimport", "machine", "cli-process", "fork:inherited-object", "fork:reimport", "sizes", "size>=1MiB:True", "copied-keys-directory"):
         if not c.get(need):
             raise boot.HarnessError(f"interesting class {need} is empty")
     if m["info"].get("ivs_compared_pairwise", 0) < 1000:
